@@ -84,12 +84,24 @@ package resolvers
 //@ func mutationResolver.AddComment
 //@ func mutationResolver.AddCommentAndClose
 //@ func mutationResolver.AddCommentAndReopen
+//@   props C17
+//@   check [records-the-requested-text] err == nil ==> cache.lastMessage == text.Cleanup(input.Message)
+// ... with the requested files, and everything the answer shows - the comment and the status change - is committed
+//@   check [records-the-requested-files] err == nil ==> cache.lastFiles == input.Files
+//@   check [everything-recorded-is-committed] err == nil ==> cache.opsAtLastCommit == cache.bugOps
 //@ func mutationResolver.EditComment
 //@   props C17
 //@   check [records-the-requested-text] err == nil ==> cache.lastMessage == text.Cleanup(input.Message)
+//@   check [everything-recorded-is-committed] err == nil ==> cache.opsAtLastCommit == cache.bugOps
 //@ func mutationResolver.SetTitle
 //@   props C17
 //@   check [records-the-requested-title] err == nil ==> cache.lastTitle == text.CleanupOneLine(input.Title)
+//@   check [everything-recorded-is-committed] err == nil ==> cache.opsAtLastCommit == cache.bugOps
+//@ func mutationResolver.ChangeLabels
+//@ func mutationResolver.OpenBug
+//@ func mutationResolver.CloseBug
+//@   props C17
+//@   check [everything-recorded-is-committed] err == nil ==> cache.opsAtLastCommit == cache.bugOps
 
 // Every list resolver hands the window arguments of the request to the pagination function as they came (C20: the
 // page returned is the page asked for): after/before/first/last each go to the field of the same name.
